@@ -203,8 +203,10 @@ CHECKS = {
    text="Bounded symbolic execution of the real grammar/lexer/exception code. (a) char_allowed of all five grammars "
         "for ONE symbolic code point over the whole range U+0000-10FFFF against the spec sets: exhaustive, every "
         "path decided by z3. (b) a label template with one symbolic character (alphabet 'omni': U+0000-02FF plus "
-        "selected higher code points) at each of 17 syntactic positions (incl. after a begin keyword, a block name, an "
-        "end keyword with and without blank, an end-statement block name, inside a sequence, after ';') x 5 dialects: LexerError exactly for "
+        "selected higher code points) at each of 18 syntactic positions (incl. after a begin keyword, a block name, an "
+        "end keyword with and without blank, an end-statement block name, inside a sequence, after ';', after a dash "
+        "continuation inside a quoted string) x 5 dialects, for PVL/ODL/PDS3 both through the strict parser and through "
+        "pvl.loads(text, grammar=G) (the default parser class, rejection only): LexerError exactly for "
         "characters outside the set before END, unchanged load for position-neutral characters, error position "
         "attributes consistent with the text. (c) LexerError position arithmetic for every document over {LF,x} up "
         "to length 6 (quick) / 10 (thorough), every pos, lexeme lengths 0-2. Outside: more than one foreign "
